@@ -387,6 +387,11 @@ def process(unit_name, tpl_path=None, out_dir=None):
             # imported fn/macro directives keep the props of their home unit unless they name their own
             def addprops(m2):
                 head = m2.group(0)
+                if ' imported=' not in head:
+                    if head.rstrip().endswith('@*/'):
+                        head = head.rstrip()[:-3].rstrip() + ' imported=' + d['args']['unit'] + ' @*/'
+                    else:
+                        head = head + ' imported=' + d['args']['unit']
                 if ' props=' in head:
                     return head
                 if head.rstrip().endswith('@*/'):
@@ -453,7 +458,7 @@ def process(unit_name, tpl_path=None, out_dir=None):
                                    'engine': engine})
             if unit.helpers:
                 unit.pending_helpers += unit.helpers
-            unit.emit(text, {'kind': 'fn', 'fn': what, 'file': a['file'], 'real_line': real_line, 'props': props})
+            unit.emit(text, {'kind': 'fn', 'fn': what, 'file': a['file'], 'real_line': real_line, 'props': props, 'imported': a.get('imported')})
         elif k == 'item':
             src, m = unit.source(a['file'])
             what = f'{a["file"]}::{a["kind"]} {a["name"]}'
@@ -489,7 +494,7 @@ def process(unit_name, tpl_path=None, out_dir=None):
             text = apply_sections(unit, text, d, a.get('fn'), what)
             unit.functions.append({'fn': what + ('::' + a['fn'] if a.get('fn') else ''), 'file': a['file'],
                                    'line': 0, 'props': props, 'engine': 'verus'})
-            unit.emit(text, {'kind': 'fn', 'fn': what, 'file': a['file'], 'props': props})
+            unit.emit(text, {'kind': 'fn', 'fn': what, 'file': a['file'], 'props': props, 'imported': a.get('imported')})
         elif k == 'include':
             continue
         else:
